@@ -700,6 +700,10 @@ def _generic_kwargs(params, gname, ic, full, weighted, extra):
                 kw["rho"] = 0.25
         elif ic == "default":
             pass
+        elif ic == "overlap-list":
+            # a node named in both lists (whatever the simulator makes of it, it must leave both lists alone)
+            kw["initial_infecteds"] = list(inf)
+            kw["initial_recovereds"] = [list(inf)[0]] + list(rec)
         elif ic.startswith("rec-"):
             ckind = ic[4:]
             kw["initial_infecteds"] = container(ckind, inf)
@@ -771,6 +775,8 @@ def _generic_scenarios(name, f, tier):
         ics += CONTAINERS
         if "initial_recovereds" in params:
             ics += ["rec-list", "rec-set", "rec-ndarray"] + (["rec-tuple", "rec-dictkeys"] if tier == "thorough" else [])
+            if name in ("fast_SIR", "fast_nonMarkov_SIR", "Gillespie_SIR", "discrete_SIR", "basic_discrete_SIR", "percolation_based_discrete_SIR"):
+                ics.append("overlap-list")
     if has_ic and params["initial_infecteds"].default is inspect.Parameter.empty:
         ics = [i for i in ics if i not in ("default", "rho")]
     if name in ("SIS_individual_based", "SIR_individual_based"):
